@@ -181,6 +181,9 @@ WEIRD = [
     ("odd-expr-2", "src/w.c", "/* SPDX-License-Identifier: ( OR + mit + GPL-2.0+ */\n"),
     ("odd-expr-3", "src/w.py", "# SPDX-License-Identifier: MIT WITH\n# SPDX-License-Identifier: )(\n# SPDX-License-Identifier: +\n"),
     ("licenseref-not-utf8", "LICENSES/LicenseRef-Odd.txt", "licence text in latin-1: caf\udce9 \udcff\udcfe\n"),
+    ("gitmodules-empty-path", ".gitmodules", '[submodule "x"]\n\tpath =\n\turl = https://example.org/x.git\n'),
+    ("gitmodules-no-value", ".gitmodules", '[submodule "y"]\n\tpath\n'),
+    ("gitmodules-garbage", ".gitmodules", '[submodule "z\n\tpath = \udcff\x00\n[[[\n'),
     ("unparseable-expr", "src/w.py", "# SPDX-License-Identifier: MIT OR OR 0BSD\n# SPDX-FileCopyrightText: 2020 J\n"),
     ("ignore-unbalanced", "src/w.py", "# REUSE-IgnoreEnd\n# SPDX-License-Identifier: MIT\n# REUSE-IgnoreStart\n# SPDX-License-Identifier: Foo\n"),
     ("license-file-weird", "src/w.png.license", "\udcff\x00\x01"),
@@ -219,6 +222,10 @@ def gen_case(seed, tier, index=0):
             files.append({"path": "src/uses_odd.py", "content": "# SPDX-FileCopyrightText: 2020 J\n# SPDX-License-Identifier: LicenseRef-Odd\n"})
         if any(p == "src/w.png.license" for _, p, _ in picks):
             files.append({"path": "src/w.png", "content": "\x89PNG\x00\x00"})
+        if any(p == ".gitmodules" for _, p, _ in picks):
+            case["force_git"] = True
+        if rng.chance(0.15):
+            case["fifo"] = rng.pick(["src/a.py.license", "src/pipe", "docs/c.md.license"])
         if rng.chance(0.3):
             files.append({"path": "REUSE.toml", "content": 'version = 1\n[[annotations]]\npath = "src/**"\nprecedence = "aggregate"\nSPDX-FileCopyrightText = "2020 X"\nSPDX-License-Identifier = "MIT"\n'})
         case.update(trigger="weird:" + "+".join(sorted(n for n, _, _ in picks)))
@@ -306,7 +313,7 @@ def gen_case(seed, tier, index=0):
         extra = {"faults": faults, "mutations": muts, "readdir_key": rng.randrange(1 << 30)}
         variants = [{"hashseed": rng.randrange(8), "steps": [st]} for st in _steps_for(rng, cmds, 0.5, extra)]
         case["covered"] = covered
-    if rng.chance(0.3) and fam != "faults":
+    if (rng.chance(0.3) and fam != "faults") or case.get("force_git"):
         case_git = {"commit": True}
     else:
         case_git = None
